@@ -375,3 +375,39 @@ class VerifCollectionReturningOperation(FloatOperation):
     def _process_logic(self, data):
         from semantiva.examples.test_utils import FloatDataCollection
         return FloatDataCollection.from_list([FloatDataType(data.data), FloatDataType(data.data)])
+
+
+# ---- data objects with an unusual but legal __len__ ----
+class VerifOddLenData(BaseDataType):
+    """A data type that defines __len__, which raises (as len() of a wrapper over a 0-d array does)."""
+
+    def validate(self, data):
+        return True
+
+    def __len__(self):
+        raise TypeError("len() of unsized object")
+
+
+class VerifHugeLenData(BaseDataType):
+    """A data type whose __len__ returns more than sys.maxsize (len() raises OverflowError)."""
+
+    def validate(self, data):
+        return True
+
+    def __len__(self):
+        return 1 << 70
+
+
+def make_odd_source(kind):
+    name = "VerifOddSource_" + kind
+    if name not in _cache:
+        dt = {"raises": VerifOddLenData, "huge": VerifHugeLenData}[kind]
+
+        def _get_data(cls):
+            return dt(3.0)
+
+        def output_data_type(cls):
+            return dt
+        _cache[name] = type(name, (DataSource,), {"_get_data": classmethod(_get_data), "output_data_type": classmethod(output_data_type),
+                                                   "__doc__": "Produces a data object with an unusual __len__."})
+    return _cache[name]
